@@ -344,13 +344,23 @@ impl Driver {
             13 => Op::Broadcast,
             _ => {
                 let mut c2 = self.node.cfg.clone();
-                match self.r.below(6) {
+                match self.r.below(9) {
                     0 => c2.tx = *self.r.pick(&[1u8, 2, 5, 20, 255]),
                     1 => c2.k = self.r.range(1, 4) as usize,
                     2 => c2.pg = None,
                     3 => c2.pa = None,
                     4 => c2.notify_down = !c2.notify_down,
-                    _ => c2.p += 1, // invalid: must be refused
+                    5 => c2.p += 1, // invalid: must be refused
+                    6 => c2.pad = None,
+                    _ => {
+                        // switch a periodic task on (refused when it is off; a change of parameters otherwise)
+                        let v = Some((self.r.range(c2.p / 3, c2.p * 4), self.r.range(1, 4) as usize));
+                        match self.r.below(3) {
+                            0 => c2.pa = v,
+                            1 => c2.pad = v,
+                            _ => c2.pg = v,
+                        }
+                    }
                 }
                 Op::SetConfig(c2)
             }
